@@ -184,6 +184,27 @@ pub fn run(out: &mut Out, thorough: bool, seed: u64, _extra: &[String]) {
                 else { out.raw(&format!("!FAIL refuse {} {} {} :: operation computed on an operand that is invalid for the context # refuse-{}", sn, what, opn, what)); }
             }
         }
+        // ---------- (c') a WELL-FORMED ciphertext at the pure key level (all primes incl. the special one; what a public key or an encryption of
+        // zero at the key level is) is not a valid evaluator / decryptor operand when the chain has data levels below it
+        if s.ctx.key_parms_id() != s.ctx.first_parms_id() {
+            let pkc = s.keygen.create_public_key(false).as_ciphertext().clone();
+            let mut keyc: Vec<(&str, Ciphertext)> = vec![("public-key-as-ciphertext", pkc)];
+            if let Ok(z) = std::panic::catch_unwind(std::panic::AssertUnwindSafe(|| s.encryptor.encrypt_zero_new_at(s.ctx.key_parms_id()))) { keyc.push(("encrypt-zero-at-key-level", z)); }
+            for (what, b) in &keyc {
+                if std::panic::catch_unwind(std::panic::AssertUnwindSafe(|| b.is_valid_for(&s.ctx))).unwrap_or(false) { out.raw(&format!("!FAIL is_valid_for {} {} :: key-level ciphertext reported valid as a ciphertext operand # keylevel", sn, what)); }
+                else { out.raw(&format!("!OK is_valid_for {} {} refused # keylevel", sn, what)); }
+                let ops: Vec<(&str, Box<dyn Fn() + '_>)> = vec![
+                    ("negate", Box::new(|| { let _ = ev.negate_new(b); })), ("add", Box::new(|| { let _ = ev.add_new(b, b); })), ("sub", Box::new(|| { let _ = ev.sub_new(b, b); })),
+                    ("multiply", Box::new(|| { let _ = ev.multiply_new(b, b); })), ("square", Box::new(|| { let _ = ev.square_new(b); })),
+                    ("mod_switch_to_next", Box::new(|| { let _ = ev.mod_switch_to_next_new(b); })), ("decrypt", Box::new(|| { let _ = s.decryptor.decrypt_new(b); })),
+                    ("transform", Box::new(|| { let _ = if b.is_ntt_form() { ev.transform_from_ntt_new(b) } else { ev.transform_to_ntt_new(b) }; })),
+                ];
+                for (opn, f) in ops {
+                    if refused(std::panic::AssertUnwindSafe(|| f())) { out.raw(&format!("!OK refuse {} {} {} # refuse-keylevel", sn, what, opn)); }
+                    else { out.raw(&format!("!FAIL refuse {} {} {} :: operation computed on a key-level ciphertext (invalid operand for the context) # refuse-keylevel", sn, what, opn)); }
+                }
+            }
+        }
         // different levels, wrong representation, unexpanded seed
         if levels.len() >= 2 {
             let low = ev.mod_switch_to_next_new(&c1);
